@@ -207,6 +207,12 @@ class TableInfo(object):
                     bump(sources_of(v), DATA, ev)
                 elif k == 'for':
                     bump(sources_of(ev.info['iter']), DATA, ev)
+                elif k == 'truthtest':
+                    # truth value of a table = IterContainer.__len__ = full scan
+                    ts = self.table_sources(fn)
+                    if fn.name == '__init__' and fn.cls is not None:
+                        ts = ts | self.ctor_table_params(fn)
+                    bump({s for s in sources_of(ev.info['arg']) if s in ts}, DATA, ev)
                 elif k == 'next':
                     v = ev.info['iter']
                     lvl = HEADER if iter_state(v) == 'H' else DATA
